@@ -548,11 +548,17 @@ func (e *Engine) model(st *State, name string, fn *ssa.Function, args []Val, rt 
 			return one(v)
 		}
 		return nil, false
-	case "(*image.RGBA).PixOffset", "(*image.NRGBA).PixOffset", "(*image.RGBA64).PixOffset", "(*image.NRGBA64).PixOffset":
+	case "(*image.RGBA).PixOffset", "(*image.NRGBA).PixOffset", "(*image.RGBA64).PixOffset", "(*image.NRGBA64).PixOffset",
+		"(*image.Gray).PixOffset", "(*image.Alpha).PixOffset", "(*image.Gray16).PixOffset", "(*image.Alpha16).PixOffset", "(*image.CMYK).PixOffset":
 		// PixOffset(x, y) = (y − Rect.Min.Y)·Stride + (x − Rect.Min.X)·bytesPerPixel (image package definition)
 		bpp := int64(4)
-		if strings.Contains(name, "64") {
+		switch {
+		case strings.Contains(name, "64"):
 			bpp = 8
+		case strings.Contains(name, "Gray16"), strings.Contains(name, "Alpha16"):
+			bpp = 2
+		case strings.Contains(name, "Gray)"), strings.Contains(name, "Alpha)"):
+			bpp = 1
 		}
 		x, ok3 := args[1].(*Form)
 		y, ok4 := args[2].(*Form)
@@ -1052,6 +1058,32 @@ func (e *Engine) summariseLoop(st *State, fr *frame, b *ssa.BasicBlock, ifi *ssa
 	if !unitStep && iv.Op.String() != "<" {
 		return fail("non-unit step with a comparison other than <")
 	}
+	// zero trips: the summary below describes a loop that runs limit − first (≥ 0) times. A path
+	// whose conditions say the counter starts at or beyond its bound (for i := 1; i < n; i++ after
+	// `n > 0` was decided false) skips the loop, every loop variable at its start value. A path
+	// that cannot tell is followed for the entered case only, and says so in its conditions.
+	var zeroOuts []Outcome
+	if trips != nil && eat == nil && !e.GenericLoops {
+		tc, isC := trips.ConstInt()
+		if isC && tc < 0 {
+			return e.exec(st, fr, b.Succs[1], b, 0, depth), true
+		}
+		if !isC {
+			var plain []*BoolVal
+			for _, pc := range st.conds {
+				cc := *pc
+				cc.Src, cc.Exact = nil, nil
+				plain = append(plain, &cc)
+			}
+			facts := e.factsOf(plain)
+			if neg, _ := e.proveGE0(trips.Neg().Sub(formInt(1)), facts); neg {
+				return e.exec(st, fr, b.Succs[1], b, 0, depth), true
+			}
+			if nonneg, _ := e.proveGE0(trips, facts); !nonneg {
+				st.conds = append(st.conds, &BoolVal{Op: ">=", A: trips, B: formInt(0)})
+			}
+		}
+	}
 	// the recorded facts carry the exclusive end of the counter's range
 	limitIn := limit
 	switch iv.Op.String() {
@@ -1329,6 +1361,7 @@ func (e *Engine) summariseLoop(st *State, fr *frame, b *ssa.BasicBlock, ifi *ssa
 	}
 	res := e.exec(st, fr, b.Succs[1], b, 0, depth)
 	res = append(res, exits...)
+	res = append(res, zeroOuts...)
 	return res, true
 }
 
